@@ -229,3 +229,62 @@ func codeNum(v int64) int64 {
 	}
 	return -2 * v
 }
+
+// epbsAfter counts the emulation prevention bytes of a NAL unit (header of hdr
+// bytes + escaped RBSP) that precede RBSP bytes with index >= fromByte, and
+// those before (read from the escaped bytes themselves: a 03 after two zero bytes).
+func epbsAfter(nal []byte, hdr, fromByte int) (before, after int) {
+	zeros, u := 0, 0
+	for i := hdr; i < len(nal); i++ {
+		b := nal[i]
+		if zeros >= 2 && b == 3 {
+			zeros = 0
+			if u >= fromByte {
+				after++
+			} else {
+				before++
+			}
+			continue
+		}
+		if b == 0 {
+			zeros++
+		} else {
+			zeros = 0
+		}
+		u++
+	}
+	return
+}
+
+// seenExtData records the shape of an extension data run: its length class and
+// the emulation prevention bytes inside it.
+func seenExtData(c *runner.Ctx, cat string, nal []byte, startBit, nFlags int) {
+	if startBit < 0 {
+		return
+	}
+	_, in := epbsAfter(nal, 2, startBit/8)
+	lc := "0"
+	switch {
+	case nFlags >= 64:
+		lc = "64+"
+	case nFlags >= 24:
+		lc = "24-63"
+	case nFlags >= 8:
+		lc = "8-23"
+	case nFlags >= 1:
+		lc = "1-7"
+	}
+	c.Seen(cat, "flags="+lc)
+	ec := "0"
+	switch {
+	case in >= 3:
+		ec = "3+"
+	case in > 0:
+		ec = fmt.Sprint(in)
+	}
+	c.Seen(cat, "emulation-prevention-bytes-inside="+ec)
+	c.Seen(cat, fmt.Sprintf("start-bit%%8=%d", startBit%8))
+	if in > 0 {
+		c.Count("ext_data.runs_with_emulation_prevention", 1)
+	}
+}
